@@ -538,7 +538,7 @@ pub fn check_live(c: &crate::props::c08::Case) -> Verdict {
     let a = crate::props::c01::true_auxv(t.pid);
     let pickv = |i: usize| if mask & (1 << i) != 0 { a[i] } else { 0 };
     let direct = minidump_writer::minidump_writer::DirectAuxvDumpInfo { program_header_count: pickv(0), program_header_address: pickv(1), linux_gate_address: pickv(2), entry_address: pickv(3) };
-    let dumper = minidump_writer::ptrace_dumper::PtraceDumper::new_report_soft_errors(t.pid, std::time::Duration::from_millis(2000), minidump_writer::verif_api::AuxvDumpInfo::from(direct), error_graph::strategy::DontCare);
+    let dumper = minidump_writer::ptrace_dumper::PtraceDumper::new_report_soft_errors(t.pid, std::time::Duration::from_millis(2000), direct.into(), error_graph::strategy::DontCare);
     let dumper = match dumper {
         Ok(d) => d,
         Err(e) => return Verdict::viol("C13:live:dumper-init-failed", format!("{e:?}")),
